@@ -177,8 +177,36 @@ theorem parseMesh_eq_expected (l : Bytes) :
   mdl_norm [Mdl.parseMesh, Expected.mesh, bytes3]
   rfl
 
--- `BoneTable` (`[u16; 64]`) is translated and its normal form is pinned (`boneTable_generated`), but the step-1
--- proof by unrolling 64 reads takes about a minute of elaboration; it needs a `Mdl.count`/`repeatN` lemma instead.
+/-! `BoneTable` (`[u16; 64]`): through a lemma relating the model's `count u16 n` to `repeatN` (no unrolling) -/
+theorem count_u16 (n : Nat) (s : Bytes) :
+    Mdl.count Mdl.u16 n s =
+      toR ((repeatN (Kind.read .little [] (.prim .u16)) n s).bind fun vs => (projAll u16OfV vs.1).map (·, vs.2)) := by
+  induction n generalizing s with
+  | zero => rfl
+  | succ n ih =>
+    simp only [Mdl.count, bind, pure, m_bind, m_u16, m_pure, ih, toR_bind]
+    binrw_norm []
+    cases u16le s with
+    | none => rfl
+    | some x =>
+      simp only [Option.bind_some]
+      cases repeatN _ n x.2 with
+      | none => rfl
+      | some vs =>
+        simp only [Option.bind_some, projAll, u16OfV]
+        cases projAll u16OfV vs.1 <;> rfl
+
+theorem parseBoneTable_eq_expected (l : Bytes) :
+    Mdl.parseBoneTable l = toR (via boneTableOf (Layout.read .little Expected.boneTable l)) := by
+  simp only [Mdl.parseBoneTable, bind, pure, m_bind, m_pure, m_u8, m_skip, count_u16, toR_bind,
+    Expected.boneTable, Layout.read, Layout.readFields, Field.read, Kind.read, readMagic, Count.eval, Option.getD,
+    Kind.size, Prim.width, readPrim, skip, via, boneTableOf, List.drop_zero, List.nil_append, List.cons_append,
+    Option.bind_some, Option.bind_map, Option.map_map, Option.map_some, Function.comp_def,
+    Nat.zero_sub, Option.bind_assoc]
+  congr 1
+  cases repeatN (readPrim .u16 .little) 64 l with
+  | none => rfl
+  | some y => simp only [Option.bind_some]; cases projAll u16OfV y.1 <;> cases u8 y.2 <;> rfl
 
 /-! ### the tie -/
 theorem parseFileHeader_eq_generated (l : Bytes) :
@@ -190,6 +218,9 @@ theorem parseMesh_eq_generated (l : Bytes) :
 theorem parseSubmesh_eq_generated (l : Bytes) :
     Mdl.parseSubmesh l = toR (via submeshOf (Layout.read endian BinrwMdl.submesh l)) := by
   rw [endian_generated, Layout.read_congr _ submesh_generated]; exact parseSubmesh_eq_expected l
+theorem parseBoneTable_eq_generated (l : Bytes) :
+    Mdl.parseBoneTable l = toR (via boneTableOf (Layout.read endian BinrwMdl.boneTable l)) := by
+  rw [endian_generated, Layout.read_congr _ boneTable_generated]; exact parseBoneTable_eq_expected l
 theorem parseShape_eq_generated (l : Bytes) :
     Mdl.parseShape l = toR (via shapeStructOf (Layout.read endian BinrwMdl.shapeStruct l)) := by
   rw [endian_generated, Layout.read_congr _ shapeStruct_generated]; exact parseShape_eq_expected l
